@@ -775,19 +775,22 @@ namespace Pistache::Async
                 template <typename P>
                 void finishResolve(P& promise)
                 {
-                    auto chainer = makeChainer(promise);
-                    promise.then(std::move(chainer), [=](std::exception_ptr exc) {
-                        auto core   = this->chain_;
-                        PISTACHE_VERIF_POINT(20, &core->mtx);
-                        std::lock_guard<std::mutex> chainGuard(core->mtx);
-                        core->exc   = std::move(exc);
-                        PISTACHE_VERIF_POINT(22, core.get());
-                        core->state = State::Rejected;
-
-                        for (const auto& req : core->requests)
+                    auto chainer                = makeChainer(promise);
+                    std::weak_ptr<Core> weakPtr = this->chain_;
+                    promise.then(std::move(chainer), [weakPtr](std::exception_ptr exc) {
+                        if (auto core = weakPtr.lock())
                         {
-                            PISTACHE_VERIF_POINT(24, req.get());
-                            req->reject(core);
+                            PISTACHE_VERIF_POINT(20, &core->mtx);
+                            std::lock_guard<std::mutex> chainGuard(core->mtx);
+                            core->exc   = std::move(exc);
+                            PISTACHE_VERIF_POINT(22, core.get());
+                            core->state = State::Rejected;
+
+                            for (const auto& req : core->requests)
+                            {
+                                PISTACHE_VERIF_POINT(24, req.get());
+                                req->reject(core);
+                            }
                         }
                     });
                 }
